@@ -289,6 +289,21 @@ Theorem filters_never_panic :
   (forall v, safe (f_last v)).
 Proof. exact filters_no_panic. Qed.
 
+Theorem more_filters_never_panic :
+  (forall by_value cs rev v, safe (f_dictsort by_value cs rev v)) /\
+  (forall v, safe (f_items v)) /\
+  (forall key d v, safe (f_map_attr key d v)) /\
+  (forall inv v, safe (f_select inv v)).
+Proof. exact more_filters_no_panic. Qed.
+
+(* invalid values (errors carried as values) are ordered -- after everything else, Equal
+   among themselves -- but, like NaN, not == to themselves; [nan_free] excludes them *)
+Example invalid_values :
+  vcmp (VInvalid [97]) (VInvalid [98]) = Eq /\ vcmp (VPlain [97]) (VInvalid [97]) = Lt /\
+  veq (VInvalid [97]) (VInvalid [97]) = false /\ nan_free (VSeq [VInvalid [97]]) = false /\
+  wfn (VSeq [VInvalid [97]]) = true.
+Proof. vm_compute. repeat split. Qed.
+
 (* non-vacuity: the hypotheses are met by non-trivial values, and the interesting
    comparisons come out as the theorems say *)
 Example c07_witness :
@@ -340,3 +355,4 @@ Print Assumptions sum_additive_order_independent.
 Print Assumptions join_intercalate.
 Print Assumptions join_append.
 Print Assumptions filters_never_panic.
+Print Assumptions more_filters_never_panic.
